@@ -126,13 +126,15 @@ def register(add, NOTE):
         "Rocq proof (decimal rounding / truncation arithmetic over N and R) + character-wise vm_compute correspondence + report re-reading oracle",
         "DESIGN.md §6 C19", note=NOTE + PART)
     add("C15",
-        "Theorem (all pulse layouts, all attachment lists in any order and multiplicity, both addressing forms): the attachment options written "
-        "for a load, with the 'all pulses of an object' / 'all pulses' abbreviations, are accepted by the reader and put the load on the same "
-        "pulses with the same multiplicities (permutation); the pre-repair criterion is shown insufficient by a witness. Tie: stage `cmd` "
-        "compares the model's written attachments and re-read pulses with the real writer and the real re-read model for every lumped load of "
-        "generated command lines. PARTIAL: objects with tags, tapering, transformations, sources, media and load parameters are not modelled; "
-        "the oracle runs write -> main -> write on the real code and compares descriptions, feed impedance and the second writing.",
-        "Rocq proof (attachment writer/reader, counting argument) + vm_compute correspondence + write/read/write oracle on the real code",
+        "Theorems: (1) load attachments — for all pulse layouts, all attachment lists in any order and multiplicity and both addressing forms, "
+        "the written options (with the 'all pulses of an object' / 'all pulses' abbreviations) are accepted by the reader and put the load on "
+        "the same pulses with the same multiplicities; the pre-repair criterion is refuted by a witness. (2) objects and tags — every model "
+        "the reader produces from any mix of arcs, helices and wires with explicit non-consecutive or automatic tags (read in the order arcs, "
+        "helices, wires; automatic tags max+1, ...; sorted by tag) is reproduced by reading the written options, and writing again gives the "
+        "same options. Tie: stages `cmd` and `objs` compare the model reader / writer with the real main / as_cmdline on generated command "
+        "lines. PARTIAL: tapering, transformations, sources, media and load parameters are not modelled; the oracle runs write -> main -> "
+        "write on the real code and compares descriptions, feed impedance and the second writing.",
+        "Rocq proof (attachment writer/reader by counting; object tags by sorting / permutation invariance) + vm_compute correspondence + write/read/write oracle on the real code",
         "DESIGN.md §6 C15", note=NOTE + PART)
     add("C18",
         "Theorem: for every combination of environment (free space, perfect ground, 1..n media with linear / circular boundary and radials), "
